@@ -758,6 +758,98 @@ def decode_sparams(t):
     return out
 
 
+# ---- methods of nested classes ------------------------------------------------
+# The owning class of an unannotated self is found by the def route from the enclosing ClassDef and by the
+# runtime route by walking function.__qualname__ from the module.  Classes nested one to four levels deep,
+# and classes defined inside a function (qualname with <locals>), each with an instance method, a method with
+# an annotated self, a classmethod and a staticmethod.
+
+METHOD_CALLS = ["{P}.m('x', 1)", "{P}.m({P}(), 1)", "{P}.m({P}(), 'x')", "{P}().m(1)", "{P}().m('x')", "{P}.ma('x', 1)", "{P}().ma('x')",
+                "{P}.c(1)", "{P}.c('x')", "{P}().c('x')", "{P}.s(1)", "{P}.s('x')", "{P}().s('x')", "{P}.m()", "{P}().m(1, 2)"]
+
+
+def gen_method_module(rng, depth, local, ann="int"):
+    """-> (source, [class paths, outermost first]); `local`: the chain lives inside a function"""
+    names = [f"N{i}" for i in range(depth)]
+    lines = []
+    ind = "    " if local else ""
+    if local:
+        lines.append("def factory():")
+    for i, n in enumerate(names):
+        pad = ind + "    " * i
+        lines.append(f"{pad}class {n}:")
+        b = pad + "    "
+        path = ".".join(names[: i + 1])
+        lines += [f"{b}def m(self, a: {ann}):", f"{b}    _vm = self", f"{b}def ma(self{'' if local else ': ' + repr(path)}, a: {ann}):", f"{b}    _va = self",
+                  f"{b}@classmethod", f"{b}def c(cls, a: {ann}):", f"{b}    _vc = cls", f"{b}@staticmethod", f"{b}def s(a: {ann}):", f"{b}    pass"]
+    if local:
+        lines.append(f"    return {names[0]}")
+        lines.append("LOC = factory()")
+        return "\n".join(lines) + "\n", [".".join(["LOC"] + names[1 : i + 1]) for i in range(depth)], ann
+    return "\n".join(lines) + "\n", [".".join(names[: i + 1]) for i in range(depth)], ann
+
+
+def enc_self(v):
+    from pyanalyze.value import AnyValue, SubclassValue, TypedValue
+
+    if isinstance(v, AnyValue):
+        return ("any",)
+    if isinstance(v, SubclassValue) and isinstance(v.typ, TypedValue):
+        return ("sub", getattr(v.typ.typ, "__qualname__", str(v.typ.typ)))
+    if isinstance(v, TypedValue):
+        return ("typed", getattr(v.typ, "__qualname__", str(v.typ)))
+    return ("other", str(v)[:60])
+
+
+def impl_methods(rng, d: Path, tag, configs):
+    """for every class of every generated chain: type of self inside the method (def route) vs the first parameter of
+    the signature of the function object (runtime route); the call shapes in the defining and in an importing module"""
+    from pyanalyze.checker import Checker
+
+    out = []
+    ann_all = rng.choice(["int", "bytes", "float"])
+    for k, (depth, local) in enumerate(configs):
+        src, paths, ann = gen_method_module(rng, depth, local, ann_all)
+        modname = f"c13meth_{tag}_{k}"
+        calls = [(p, c) for p in paths for c in METHOD_CALLS]
+        user = "def user():\n" + "".join("    " + c.format(P=p) + "\n" for p, c in calls)
+        (d / f"{modname}.py").write_text(src)
+        res = {}
+        for name, code in (("inmod", src + user), ("imported", f"from {modname} import *\n" + user)):
+            tree, errors, mod = run_visitor(code)
+            base = len(code.splitlines()) - len(calls)
+            per = {}
+            for e in errors:
+                if e["code"].name in LINT or e["lineno"] <= base:
+                    continue
+                per.setdefault(e["lineno"] - base - 1, set()).add(e["code"].name)
+            res[name] = [sorted(per.get(i, ())) for i in range(len(calls))]
+            if name == "inmod":
+                # def route: the inferred value of `self` / `cls` inside each method
+                selfs = {}
+                for node in ast.walk(tree):
+                    if isinstance(node, ast.FunctionDef) and node.name in ("m", "ma", "c") and node.body and isinstance(node.body[0], ast.Assign):
+                        selfs.setdefault(node.name, []).append((node.lineno, enc_self(getattr(node.body[0].value, "inferred_value", None))))
+                checker = Checker()
+                rows = []
+                for i, p in enumerate(paths):
+                    cls = mod
+                    for part in p.split("."):
+                        cls = getattr(cls, part)
+                    for meth in ("m", "ma"):
+                        fn = cls.__dict__[meth]
+                        try:
+                            sig = checker.arg_spec_cache.get_argspec(fn)
+                            first = next(iter(sig.parameters.values()))
+                            rt = enc_self(first.annotation)
+                        except Exception as ex:
+                            rt = ("crash", type(ex).__name__)
+                        df = sorted(selfs.get(meth, []))[i][1] if len(selfs.get(meth, [])) > i else ("missing",)
+                        rows.append({"class": p, "method": meth, "def": df, "rt": rt})
+        out.append({"source": src, "paths": paths, "local": local, "depth": depth, "calls": calls, "res": res, "selfs": rows})
+    return out
+
+
 # ---- calls --------------------------------------------------------------------
 
 CALL_ARGS = ["", "1", "1, 2", "1, 2, 3", "a=1", "1, b=2", "__p=1", "a=1, b=2", "*(1, 2)", "**{'a': 1}", "1, 'x'", "d=1", "1, e=None"]
@@ -1118,6 +1210,53 @@ def run(tier: str, replay: str | None = None):
             for k in [k for k in sys.modules if k.startswith("c13mod_")]:
                 del sys.modules[k]
 
+    # ------------------------------------------------------------------ methods of nested classes
+    n_meth = 0
+    if not replay or (replay and "method_module" in json.loads(Path(replay).read_text()).get("input", {})):
+        d = Path(tempfile.mkdtemp(prefix="c13m_"))
+        sys.path.insert(0, str(d))
+        try:
+            if replay:
+                cfg = json.loads(Path(replay).read_text())["input"]["method_module"]
+                configs = [(int(cfg["depth"]), bool(cfg["local"]))]
+            else:
+                configs = [(1, False), (2, False), (3, False), (4, False), (1, True), (2, True), (3, True)]
+                if not quick:
+                    configs = configs * 3
+            mres = impl_methods(random.Random(lib.seed() * 101 + 5), d, f"{lib.seed()}_{tier}", configs)
+            by_shape = {}
+            for mr in mres:
+                inp = {"method_module": {"depth": mr["depth"], "local": mr["local"]}, "source": mr["source"]}
+                for row in mr["selfs"]:
+                    n_meth += 1
+                    bump("sig_verdict", f"self:{'local' if mr['local'] else 'nested'}:{row['method']}:" + ("same" if row["def"] == row["rt"] else "differ"))
+                    distinct.add(mr["source"] + row["class"] + row["method"])
+                    if row["def"] != row["rt"]:
+                        failing.append((inp, row, "the type of self inside the method (def node) differs from the first parameter of the function object's signature"))
+                for ci, (p, c) in enumerate(mr["calls"]):
+                    n_meth += 1
+                    a, b = mr["res"]["inmod"][ci], mr["res"]["imported"][ci]
+                    if a != b:
+                        failing.append((inp, {"call": c.format(P=p), "in_module": a, "imported": b}, "the same call is judged differently"))
+                    if not mr["local"]:
+                        # the nesting depth of the class must not matter (a class nested in classes only)
+                        by_shape.setdefault(c, {})[(mr["depth"], p.count("."))] = (a, inp, c.format(P=p))
+            for c, m in by_shape.items():
+                ref = None
+                for key in sorted(m):
+                    a, inp, shown = m[key]
+                    if ref is None:
+                        ref = (a, shown)
+                    elif a != ref[0]:
+                        failing.append((inp, {"call": shown, "diagnostics": a, "same_call_on_a_top_level_class": ref[1], "diagnostics_there": ref[0]},
+                                        "a call on a method of a nested class is judged differently from the same call on a top-level class"))
+                        break
+        finally:
+            sys.path.remove(str(d))
+            shutil.rmtree(d, ignore_errors=True)
+            for k in [k for k in sys.modules if k.startswith("c13meth_")]:
+                del sys.modules[k]
+
     # ------------------------------------------------------------------ verdicts
     for inp, obs, why in failing[:8]:
         rep.violation({"kind": "failing-input", "input": inp, "observed": obs, "expected": why, "how_to_run": "./check C13 --replay <this file>"})
@@ -1130,7 +1269,8 @@ def run(tier: str, replay: str | None = None):
         rep.violation({"kind": "broken-obligation", "theorem": "; ".join(proof.broken), "log": proof.log[-1500:]}, no_failing_input=True)
 
     rep.coverage.update(
-        evaluations=len(exprs) * 5 + len(headers) * 2 + n_calls * 3,
+        evaluations=len(exprs) * 5 + len(headers) * 2 + n_calls * 3 + n_meth,
+        method_observations=n_meth,
         distinct_nontrivial=len(distinct),
         rule="a case = an annotation expression (generated over the property's vocabulary, depth <= 4, old/new spellings chosen at random) evaluated through five routes "
         "(type_from_ast, string, runtime object, parameter annotation in a checked module, same as a string), or a def header (all parameter kinds, defaults, annotations, "
